@@ -57,6 +57,8 @@ class ModelServer:
         i = self.requests
         self.requests += 1
         fault = self.plan.get(i)
+        if fault is None and self.plan.get("from") is not None and i >= self.plan["from"][0]:
+            fault = self.plan["from"][1]          # persistent outage from request n on
         self.log.append((method, url, dict(headers or {}), fault))
         if fault == "conn":
             raise real_requests.exceptions.ConnectionError("connection dropped")
